@@ -259,7 +259,8 @@ func verifC06_SignVerify() {
 	n := verifBound("maxStr")
 	// the signed request is fixed; the request that is sent differs from it in ONE part, whose
 	// new value is symbolic (it may coincide with the signed value: then nothing was changed)
-	signed := vParts{method: "POST", path: "/a", query: "x", header: "t", body: []byte{7}}
+	// (the signed header value contains a tab: legal in a header value, and not a space)
+	signed := vParts{method: "POST", path: "/a", query: "x", header: "a\tb", body: []byte{7}}
 	r1 := signed.request()
 	// the client signs with its own signer; the Validator's signer is built from a spec that
 	// lists the known access keys only (as the Validator filter does)
@@ -281,8 +282,10 @@ func verifC06_SignVerify() {
 		sent.query = verifString("sent.queryValue", n)
 		verifAssume(vAlnum(sent.query))
 	case 4:
+		// letters, spaces and tabs: values that differ only by runs of SPACES are one value by
+		// design (the canonical form trims and collapses them) - anything else is a change
 		sent.header = verifString("sent.signedHeaderValue", n)
-		verifAssume(vAlnum(sent.header))
+		verifAssume(vLettersSpacesTabs(sent.header))
 	case 5:
 		sent.body = verifBytes("sent.body", verifChoose("sent.bodyLength", n+1))
 	}
@@ -308,6 +311,9 @@ func verifC06_SignVerify() {
 
 	same := signed.method == sent.method && signed.path == sent.path && signed.query == sent.query &&
 		signed.header == sent.header && vSameBytes(signed.body, sent.body)
+	if signed.header != sent.header && vCollapseSpaces(signed.header) == vCollapseSpaces(sent.header) {
+		return // equal up to runs of spaces: not asserted either way
+	}
 	inTTL := vVerifyAge >= -ttl && vVerifyAge <= ttl
 	knownKey := r2.Header.Get("Authorization") == auth && !forged
 	verifAssert((err == nil) == (same && inTTL && knownKey), "verifies-iff-every-covered-part-is-unchanged-within-ttl-known-key")
@@ -319,4 +325,33 @@ func verifC06_SignVerify() {
 	if !inTTL {
 		verifCover("expired")
 	}
+}
+
+func vLettersSpacesTabs(s string) bool {
+	ok := true
+	for i := 0; i < len(s); i++ {
+		c := s[i]
+		if !(c == 'a' || c == 'b' || c == ' ' || c == '\t') {
+			ok = false
+		}
+	}
+	return ok
+}
+
+// vCollapseSpaces: leading and trailing spaces removed, runs of spaces collapsed to one space
+func vCollapseSpaces(s string) string {
+	out := ""
+	pending := false
+	for i := 0; i < len(s); i++ {
+		if s[i] == ' ' {
+			pending = true
+			continue
+		}
+		if pending && out != "" {
+			out += " "
+		}
+		pending = false
+		out += string(s[i])
+	}
+	return out
 }
